@@ -51,7 +51,7 @@ func childSetup() *childState {
 	b.Svc.VerifStartSurveyor() // Listen() subscribes the surveyor to the query channel
 	c.key = b.MustKey("#/", brokerlab.Perms("rwlsp"))
 	c.canary = b.Attach("canary", nil)
-	c.canary.Wait = 20 * time.Second
+	c.canary.Wait = 150 * time.Second
 	if rc, err := c.canary.Connect("canary", "", nil); err != nil || rc != 0 {
 		os.Exit(5)
 	}
@@ -96,7 +96,7 @@ func handle(in []byte) string {
 		select {
 		case <-sv.Closed():
 			res = "closed"
-		case <-time.After(20 * time.Second):
+		case <-time.After(120 * time.Second):
 			res = "connection-not-closed"
 		}
 		cl.Close()
@@ -367,7 +367,7 @@ func TestC09(t *testing.T) {
 		defer os.RemoveAll(d)
 		env = append(env, "VERIF_C09_STORAGE=ssd", "VERIF_C09_STORAGE_DIR="+d)
 	}
-	outs, err := isolate.Run(os.Getenv("VERIF_BIN"), "TestIsolateChild", "c09", os.Getenv("VERIF_SCRATCH"), raw, 90*time.Second, env...)
+	outs, err := isolate.Run(os.Getenv("VERIF_BIN"), "TestIsolateChild", "c09", os.Getenv("VERIF_SCRATCH"), raw, 400*time.Second, env...)
 	if err != nil {
 		rec.Inconclusive("isolate: " + err.Error())
 		return
@@ -403,6 +403,8 @@ func TestC09(t *testing.T) {
 			rec.Inc("escaping_panics")
 			w["panic"] = o.Result
 			rec.Violation(i, side+"/escaping-"+sig, fmt.Sprintf("%s input (%s) panics in a gossip entry point that mesh calls without recover: %s", side, in.kind, o.Result), w)
+		case strings.Contains(o.Result, "canary-failed") && strings.Contains(o.Result, "watchdog expired"):
+			rec.Inconclusive("canary round trip watchdog after " + in.kind)
 		case strings.Contains(o.Result, "canary-failed"):
 			rec.Violation(i, side+"/canary-failed", fmt.Sprintf("after %s input (%s) the canary client is no longer served: %s", side, in.kind, o.Result), w)
 		case strings.HasPrefix(o.Result, "connection-not-closed"):
